@@ -27,6 +27,7 @@ type localCfg struct {
 	sym     bool // symmetry reduction over the other validators (equal powers only)
 	split   bool // also offer proposal-only / part-only inputs
 	equiv   bool // also offer equivocating votes
+	maj23   bool // also offer peer +2/3 claims (VoteSetMaj23) and re-delivery of equivocating votes
 	nodrain bool // own messages are handled as explicit inputs (StepInternal) instead of immediately
 	depth   int
 	maxSt   int
@@ -42,6 +43,8 @@ const (
 	inVote  // (symmetric) next unused other validator votes
 	inVoteJ // explicit validator
 	inEquiv // a validator that already voted in (r,t) votes another value
+	inRedeliver // the equivocating vote for this value is delivered again
+	inMaj23     // a peer claims +2/3 for this value in (r,t) (what the reactor does on a VoteSetMaj23Message)
 	inTimeout
 	inInternal
 )
@@ -84,6 +87,9 @@ func (c *localCfg) alphabet(f *csnet.Fixture) []input {
 					if c.equiv {
 						a = append(a, input{kind: inEquiv, r: r, typ: t, blk: v})
 					}
+					if c.maj23 {
+						a = append(a, input{kind: inRedeliver, r: r, typ: t, blk: v}, input{kind: inMaj23, r: r, typ: t, blk: v})
+					}
 				} else {
 					for j := range c.powers {
 						if j != c.self {
@@ -112,6 +118,10 @@ func (in input) String() string {
 		return fmt.Sprintf("Vote(v%d,%s,r%d,%s)", in.j, tn[in.typ], in.r, valNames[in.blk])
 	case inEquiv:
 		return fmt.Sprintf("EquivocatingVote(%s,r%d,%s)", tn[in.typ], in.r, valNames[in.blk])
+	case inRedeliver:
+		return fmt.Sprintf("RedeliverEquivocatingVote(%s,r%d,%s)", tn[in.typ], in.r, valNames[in.blk])
+	case inMaj23:
+		return fmt.Sprintf("PeerClaimsMaj23(%s,r%d,%s)", tn[in.typ], in.r, valNames[in.blk])
 	case inTimeout:
 		return "FireTimeout"
 	case inInternal:
@@ -135,6 +145,9 @@ type localInst struct {
 	total    int64
 	soup     *soup // everything delivered to the node plus its own votes
 	used     map[vsKey]map[int]map[string]bool
+	equivBy  map[string]int // "r/t/val" -> validator whose equivocating vote for val was delivered
+	redeliv  map[string]int
+	claims   map[string]bool
 	sentSeen int
 	commits  int
 	height   uint64
@@ -146,7 +159,8 @@ var (
 )
 
 func newLocal(c *localCfg, f *csnet.Fixture) *localInst {
-	li := &localInst{c: c, f: f, soup: newSoup(c.powers), used: map[vsKey]map[int]map[string]bool{}, height: 1}
+	li := &localInst{c: c, f: f, soup: newSoup(c.powers), used: map[vsKey]map[int]map[string]bool{}, height: 1,
+		equivBy: map[string]int{}, redeliv: map[string]int{}, claims: map[string]bool{}}
 	li.n = f.NewNode(c.self, 0)
 	st := f.GenesisStatus()
 	for b := 0; b < 2; b++ {
@@ -243,6 +257,22 @@ func (li *localInst) apply(in input) bool {
 		}
 	case inPartOnly:
 		n.Deliver(&cs.BlockPartMessage{Height: 1, Round: 0, Part: li.parts[in.blk].GetPart(0)}, "env")
+	case inMaj23:
+		k := fmt.Sprintf("%d/%d/%d", in.r, in.typ, in.blk)
+		if li.claims[k] || len(li.claims) >= 2 {
+			return false
+		}
+		li.claims[k] = true
+		// ConsensusReactor.Receive: votes.SetPeerMaj23(msg.Round, msg.Type, peerID, msg.BlockID)
+		n.CS.GetRoundState().Votes.SetPeerMaj23(in.r, in.typ, fmt.Sprintf("claimer%d", len(li.claims)), li.ids[in.blk])
+	case inRedeliver:
+		k := fmt.Sprintf("%d/%d/%d", in.r, in.typ, in.blk)
+		j, ok := li.equivBy[k]
+		if !ok || li.redeliv[k] >= 2 {
+			return false
+		}
+		li.redeliv[k]++
+		n.Deliver(&cs.VoteMessage{Vote: li.vote(j, in.r, in.typ, in.blk)}, "env2")
 	case inVote, inVoteJ, inEquiv:
 		vs := vsKey{in.r, in.typ}
 		j := in.j
@@ -262,6 +292,7 @@ func (li *localInst) apply(in input) bool {
 			if j < 0 {
 				return false
 			}
+			li.equivBy[fmt.Sprintf("%d/%d/%d", in.r, in.typ, in.blk)] = j
 		} else if li.used[vs][j][idKey(li.ids[in.blk])] {
 			return false // exact duplicate: no-op
 		}
@@ -352,7 +383,21 @@ func (li *localInst) key() string {
 	if li.c.sym {
 		self = li.c.self
 	}
-	return li.n.DigestSym(self) + " ## " + li.tallyKey()
+	extra := ""
+	if li.c.maj23 {
+		var cl []string
+		for k := range li.claims {
+			cl = append(cl, k)
+		}
+		sort.Strings(cl)
+		var rd []string
+		for k, v := range li.redeliv {
+			rd = append(rd, fmt.Sprintf("%s=%d", k, v))
+		}
+		sort.Strings(rd)
+		extra = fmt.Sprintf(" claims=%v redeliv=%v", cl, rd)
+	}
+	return li.n.DigestSym(self) + " ## " + li.tallyKey() + extra
 }
 
 func runLocal(r *vk.Run, c *localCfg) vk.Result {
@@ -480,6 +525,10 @@ func localConfigs(r *vk.Run) []*localCfg {
 		depth: r.Pick(3, 5), maxSt: r.Pick(60000, 1500000), prefix: relock})
 	out = append(out, &localCfg{name: fmt.Sprintf("eq4/self%d(non-proposer)/sym/4rounds/relocked-A-r2-moved-to-r3", other), powers: eq, self: other, rounds: 4, minR: 1, sym: true,
 		depth: r.Pick(4, 6), maxSt: r.Pick(60000, 1500000), prefix: append(append([]string{}, relock...), pc2N, pc2N, T)})
+	// peer +2/3 claims, equivocation and re-delivery of the equivocating vote (one counted vote per validator per value,
+	// whatever the peers claim): round 0 only, from the locked state
+	out = append(out, &localCfg{name: fmt.Sprintf("eq4/self%d(non-proposer)/sym/equiv+maj23+redelivery/locked-A-r0", other), powers: eq, self: other, rounds: 1, sym: true,
+		equiv: true, maj23: true, split: true, depth: r.Pick(6, 8), maxSt: r.Pick(60000, 1500000), prefix: prefixes[2].pre})
 	if !r.Quick() {
 		// the node is the proposer of round 0 / round 1 (its own block O enters the alphabet implicitly)
 		for _, self := range []int{p0, p1} {
